@@ -104,7 +104,7 @@ Sound == P_C08(ViewOf)
 \* ---- refinement: every step is a step of the plain tree (FatTree) ----
 AbsTree == [p \in Paths |-> IF ents[p].kind = "file" THEN [kind |-> "file", data |-> Content(p)]
                             ELSE IF ents[p].kind = "dir" THEN [kind |-> "dir"] ELSE [kind |-> "none"]]
-T == INSTANCE FatTree WITH tree <- AbsTree, total <- NC, out <- "ok"
+T == INSTANCE FatTree WITH tree <- AbsTree, total <- NC, out <- "ok", InE <- {}
 PlainTreeStep ==
     \/ \E p \in Dirs : T!CanMkdir(p) /\ AbsTree' = T!MkdirT(p)
     \/ \E p \in Files : T!CanCreate(p) /\ AbsTree' = T!CreateT(p)
